@@ -1291,6 +1291,14 @@ func c06Check(c *Ctx, or *Oracle, jobs []c06Job) {
 				}
 			}
 		}
+		// the bytes produced, re-scanned independently: a stream of well-formed values in valid UTF-8,
+		// without duplicate member names unless they are allowed (complete only when the depth is back to 0)
+		if n := len(steps); n > 0 && steps[n-1].snap.depth == 0 && len(out) < 1<<16 {
+			if why := c06ScanStream(out, j.o); why != "" {
+				c.Violate("output-invalid", "Encoder", c06ScriptBytes(j.script), map[string]any{
+					"opts": j.o.name, "script": c06ScriptStr(j.script), "out": trunc(string(out), 300), "why": why})
+			}
+		}
 		// (i) the run without the rejected calls
 		if nrej > 0 && len(accepted) == len(j.script)-nrej {
 			steps2, out2, ok2 := c06Run(c, j.o, accepted, false)
@@ -1586,6 +1594,7 @@ func c06EncAll(c *Ctx) {
 		jobs = append(jobs, c06Job{o, []c06Call{c06V(v), c06V(m), c06T('[', ""), c06V(v), c06V(m), c06V(v), c06T('{', ""), c06T('"', "k"), c06V(m), c06V(v), c06T('}', ""), c06T(']', "")}, "raw-value-layout"})
 	}
 	jobs = append(jobs, c06NamespaceScripts(c, r, opts, extra)...)
+	jobs = append(jobs, c06NameEquivScripts(c, r)...)
 	c.Note("enc: %d scripts in total", len(jobs))
 	c06Par(c, len(jobs), 1500, func(or *Oracle, lo, hi, w int) { c06Check(c, or, jobs[lo:hi]) })
 }
@@ -1886,4 +1895,105 @@ func c06NamespacePredicate(c *Ctx) {
 			c.Hit("namespace/linear-mode-sequences")
 		}
 	}
+}
+
+// c06ScanStream re-scans encoder output with the independent parser: newline-terminated well-formed values,
+// valid UTF-8, unique member names per object unless duplicates are allowed.  Returns "" if fine.
+func c06ScanStream(out []byte, o *c06Opts) string {
+	if !utf8.Valid(out) {
+		return "output is not valid UTF-8"
+	}
+	p := &c06Parser{b: out, allowBadUTF8: false, allowDup: o.allowDup, maxDepth: 10001}
+	for {
+		p.ws()
+		if p.i >= len(p.b) {
+			return ""
+		}
+		start := p.i
+		if _, err := p.value(0); err != nil {
+			return fmt.Sprintf("value starting at offset %d is malformed or has duplicate names (scanner stopped at %d)", start, p.i)
+		}
+		if p.i >= len(p.b) || p.b[p.i] != '\n' {
+			return fmt.Sprintf("top-level value ending at offset %d is not followed by a newline", p.i)
+		}
+	}
+}
+
+// ---------------------------------------------------------------------------------------------
+// name equivalence: member names are compared AFTER unescaping and AFTER every invalid byte has become U+FFFD.
+
+// spellings of names as raw JSON string literals, in equivalence groups
+var c06NameSpellings = []string{
+	`"a"`, `"a"`, // a
+	`"/"`, `"\/"`, `"/"`, // /
+	"\"\U0001F600\"", `"😀"`, `"😀"`, // U+1F600
+	"\"\xff\"", "\"\xfe\"", "\"\xef\xbf\xbd\"", `"�"`, `"�"`, `"\ud800"`, "\"\xc2\"", // U+FFFD once substituted
+	"\"k\xff\"", "\"k\xfe\"", "\"k\xef\xbf\xbd\"", `"k�"`, "\"k\xe2\x82\"", // k U+FFFD (the last: k U+FFFD U+FFFD)
+	"\"\xff\xff\"", "\"\xe2\x82\"", `"��"`, // U+FFFD U+FFFD
+	`"b"`, `"é"`, "\"é\"", `"é"`, `""`,
+}
+
+// names as string tokens (unescaped bytes)
+var c06NameTokens = []string{"a", "/", "\U0001F600", "\xff", "\xfe", "\xef\xbf\xbd", "\xc2", "k\xff", "k\xfe", "k\xef\xbf\xbd",
+	"k\xe2\x82", "\xff\xff", "\xe2\x82", "\xef\xbf\xbd\xef\xbf\xbd", "b", "é", ""}
+
+func c06NameEquivScripts(c *Ctx, r *rand.Rand) []c06Job {
+	sets := []*c06Opts{
+		c06MkOpts("default"),
+		c06MkOpts("AllowInvalidUTF8", jsontext.AllowInvalidUTF8(true)),
+		c06MkOpts("AllowDuplicateNames", jsontext.AllowDuplicateNames(true)),
+		c06MkOpts("AllowInvalidUTF8+AllowDuplicateNames", jsontext.AllowInvalidUTF8(true), jsontext.AllowDuplicateNames(true)),
+	}
+	var jobs []c06Job
+	sp, tk := c06NameSpellings, c06NameTokens
+	for _, o := range sets {
+		// raw objects: every ordered pair of spellings in one object — top level, inside a token-written array,
+		// as a member value of a token-written object, and nested inside a raw object
+		for _, x := range sp {
+			var s []c06Call
+			for _, y := range sp {
+				obj := "{" + x + ":1," + y + ":2}"
+				s = append(s, c06V(obj))
+				s = append(s, c06T('[', ""), c06V(obj), c06V(`[`+obj+`]`), c06T(']', ""))
+				s = append(s, c06T('{', ""), c06T('"', "m"), c06V(obj), c06V(x), c06V(`{"n":`+obj+`,`+y+`:0}`), c06T('}', ""))
+			}
+			jobs = append(jobs, c06Job{o, s, "name-equivalence-raw"})
+		}
+		// token names, and token/raw mixtures inside ONE token-written object
+		for _, x := range tk {
+			var s []c06Call
+			for _, y := range tk {
+				s = append(s, c06T('{', ""), c06T('"', x), c06T('n', ""), c06T('"', y), c06T('n', ""), c06T('}', ""))
+			}
+			for _, y := range sp {
+				// first name by token, second as a raw string value; and the other way round
+				s = append(s, c06T('{', ""), c06T('"', x), c06T('n', ""), c06V(y), c06T('n', ""), c06T('}', ""))
+				s = append(s, c06T('{', ""), c06V(y), c06T('n', ""), c06T('"', x), c06T('n', ""), c06T('}', ""))
+			}
+			jobs = append(jobs, c06Job{o, s, "name-equivalence-token"})
+		}
+		// triples and longer objects of random spellings, raw and by raw-string names
+		for i, n := 0, c.N(150, 5000); i < n; i++ {
+			k := 3 + r.IntN(4)
+			obj := "{"
+			var s []c06Call
+			s = append(s, c06T('[', ""), c06T('{', ""))
+			for j := 0; j < k; j++ {
+				x := sp[r.IntN(len(sp))]
+				if j > 0 {
+					obj += ","
+				}
+				obj += x + ":" + []string{"0", "{" + sp[r.IntN(len(sp))] + ":1," + sp[r.IntN(len(sp))] + ":2}"}[r.IntN(2)]
+				if r.IntN(2) == 0 {
+					s = append(s, c06V(x), c06T('n', ""))
+				} else {
+					s = append(s, c06T('"', tk[r.IntN(len(tk))]), c06T('n', ""))
+				}
+			}
+			obj += "}"
+			s = append(s, c06T('}', ""), c06V(obj), c06T(']', ""), c06V(obj))
+			jobs = append(jobs, c06Job{o, s, "name-equivalence-random"})
+		}
+	}
+	return jobs
 }
